@@ -309,9 +309,9 @@ Qed.
 Lemma apply_flush_cons cf d i q : apply_flush cf d (i :: q) = apply_flush cf (apply_flush cf d [i]) q.
 Proof. now rewrite apply_flush_app. Qed.
 
-Lemma pass_sound id : forall vs prev pre d q rest,
+Lemma pass_sound id same : forall vs prev pre d q rest,
   cinv d -> versions_of d id = pre ++ prev :: vs ->
-  entity_pass cf_fixed identical prev vs = q ++ rest ->
+  entity_pass cf_fixed identical same prev vs = q ++ rest ->
   inv_rel d (apply_flush cf_fixed d q)
   /\ (forall id', id' <> id -> versions_of (apply_flush cf_fixed d q) id' = versions_of d id').
 Proof.
@@ -324,7 +324,7 @@ Proof.
       destruct q as [|i0 q].
       { rewrite apply_flush_nil. split; [now apply inv_rel_refl | reflexivity]. }
       cbn [app] in Hq. injection Hq as Hi0 Hq.
-      set (w := if false || negb (Z.eqb (en_time prev) (en_time v)) then 1 + 2 * ref_targets (en_c v) else 1).
+      set (w := if false || negb (same v) then 1 + 2 * ref_targets (en_c v) else 1).
       assert (Ei : i0 = dup_instr prev v w (match vs with [] => true | _ => false end))
         by (rewrite <- Hi0; reflexivity).
       rewrite Ei. clear Hi0 Ei i0.
@@ -349,9 +349,8 @@ Proof.
            ++ rewrite (Ho1 id' Hne). apply oc_same_refl.
         -- intros e He. rewrite He1 in He. apply filter_In in He. apply He.
       * intros id' Hne. rewrite (Ho id' Hne). now apply Ho1.
-    + set (w := if Bool.eqb (c_del (en_c prev)) (c_del (en_c v)) then common_ref_weight prev v else 0) in Hq.
-      assert (Hv' : versions_of d id = (pre ++ [prev]) ++ v :: vs) by (now rewrite <- app_assoc).
-      destruct (0 <? w).
+    + assert (Hv' : versions_of d id = (pre ++ [prev]) ++ v :: vs) by (now rewrite <- app_assoc).
+      match type of Hq with context [if 0 <? ?w then _ else _] => destruct (0 <? w) end.
       * (* only reference keys are scheduled: the dataset state is untouched, the base advances *)
         cbn [cf_fixed cf_stale_prev] in Hq.
         destruct q as [|i0 q].
@@ -372,7 +371,7 @@ Proof.
   destruct (versions_of d0 id) as [|v vs] eqn:E0.
   - symmetry in Hq. apply app_eq_nil in Hq. destruct Hq as [-> _].
     rewrite apply_flush_nil. split; [now apply inv_rel_refl | reflexivity].
-  - apply (pass_sound id vs v [] d q rest Hd); [exact Hv | exact Hq].
+  - apply (pass_sound id (shares_time (v :: vs)) vs v [] d q rest Hd); [exact Hv | exact Hq].
 Qed.
 
 Lemma order_sound d0 : forall order d q rest,
@@ -448,9 +447,9 @@ Lemma del_keys_cons i g : del_keys (i :: g) = match i_del i with Some k => [k] |
 Proof. reflexivity. Qed.
 
 (** no instruction of a pass names a key outside the versions it walks *)
-Lemma pass_keys_absent cf eqb k : forall vs prev,
+Lemma pass_keys_absent cf eqb same k : forall vs prev,
   (forall x, In x vs -> vkey_eqb k (key_of x) = false) ->
-  kmem k (del_keys (entity_pass cf eqb prev vs)) = false.
+  kmem k (del_keys (entity_pass cf eqb same prev vs)) = false.
 Proof.
   induction vs as [|v vs IH]; intros prev H; cbn [entity_pass]; [reflexivity|].
   assert (Hv : vkey_eqb k (key_of v) = false) by (apply H; now left).
@@ -462,10 +461,10 @@ Qed.
 
 Definition lastc (pimm : entry) (M : list entry) : entry := match last_opt M with Some x => x | None => pimm end.
 
-Lemma pass_char e L2 : forall M prev pimm,
+Lemma pass_char same e L2 : forall M prev pimm,
   identical (en_c prev) (en_c pimm) = true ->
   (forall x, In x (M ++ L2) -> vkey_eqb (key_of e) (key_of x) = false) ->
-  kmem (key_of e) (del_keys (entity_pass cf_fixed identical prev (M ++ e :: L2)))
+  kmem (key_of e) (del_keys (entity_pass cf_fixed identical same prev (M ++ e :: L2)))
   = identical (en_c (lastc pimm M)) (en_c e).
 Proof.
   induction M as [|m M IH]; intros prev pimm Hpp Hk; cbn [app entity_pass].
@@ -549,7 +548,7 @@ Proof.
   destruct (filter (has_id (en_id e)) E1) as [|f L1] eqn:EL1; cbn [app last_opt option_map].
   - (* e is the entity's first version: never removed *)
     apply pass_keys_absent. intros x Hx. rewrite vkey_eqb_sym. apply Hkeys. exact Hx.
-  - rewrite (pass_char e _ L1 f f (identical_refl _)).
+  - rewrite (pass_char _ e _ L1 f f (identical_refl _)).
     + unfold lastc. destruct (last_opt L1); reflexivity.
     + intros x Hx. rewrite vkey_eqb_sym. apply Hkeys. cbn [app]. right. exact Hx.
 Qed.
